@@ -232,7 +232,30 @@ func (m *Model) deletionMatches(alt *Term, wu *writeUnit, ev map[*types.Var]*Ter
 	// (i) derived from the event's own body: binop ==(V(value), zero)
 	if alt.Kind == "binop" && alt.Name == "==" && len(alt.Args) == 2 && valueTerm != nil {
 		if isZeroTerm(alt.Args[1]) && (termsEqual(alt.Args[0], valueTerm) || altsSubset(alt.Args[0], valueTerm)) {
-			return true
+			// the body that is tested must include what THIS statement stores: the bound value, or
+			// a read of the column after the write when the body is computed in SQL
+			covers := false
+			for _, x := range alt.Args[0].alts() {
+				switch vsrc.Kind {
+				case "bound":
+					for _, s := range vsrc.Term.alts() {
+						if termsEqual(x, s) {
+							covers = true
+						}
+					}
+				case "sqlexpr":
+					if isScanOf(x, "value", true) {
+						covers = true
+					}
+				case "literal":
+					covers = covers || isZeroTerm(x) && isNullLit(vsrc.Expr)
+				case "unassigned":
+					covers = covers || isScanOf(x, "value", false)
+				}
+			}
+			if covers {
+				return true
+			}
 		}
 	}
 	switch {
@@ -366,6 +389,9 @@ func (m *Model) revTermOK(t *Term, K *ssa.Function) (bool, string) {
 		for _, leaf := range alt.Args[0].alts() {
 			switch {
 			case isZeroTerm(leaf):
+				if leaf.Name == "reset" {
+					return false, "the count restarts from zero on a path that overwrites the whole object the row was read into: the row's revSeqNo is forgotten"
+				}
 			case leaf.Kind == "scan":
 				if !isScanOf(leaf, "revseqno", false) {
 					return false, "the incremented value is read from column " + leaf.Col
@@ -1070,6 +1096,34 @@ func (m *Model) ruleCHECKPOINT(r *Results) {
 		}
 	}
 	r.check(up, rule, name+" / mark only moves up", m.instrPos(store), "the mark is replaced only by a larger CAS", "the mark can be replaced by a smaller or equal CAS")
+	// every other writer of the mark: only the restore from the checkpoint document; the helper that
+	// holds the loop's store is called from nowhere else
+	for _, f := range m.Funcs {
+		for _, b := range f.Blocks {
+			for _, ins := range b.Instrs {
+				st, ok := ins.(*ssa.Store)
+				if !ok || st == store {
+					continue
+				}
+				fa, ok := st.Addr.(*ssa.FieldAddr)
+				if !ok || fieldOf(fa) != casField {
+					continue
+				}
+				_, vf, isLoad := fieldLoad(st.Val)
+				fromDoc := isLoad && vf.Name() == "LastSeq"
+				r.check(fromDoc, rule, m.declName(f)+" / other writer of the delivered-CAS mark", m.instrPos(st), "the mark is otherwise only restored from the checkpoint document", "the delivered-CAS mark is also written here, with a value that is not the CAS of an event handed to the callback: the persisted checkpoint can exceed what was delivered")
+			}
+		}
+	}
+	if via != nil {
+		h := via.Common().StaticCallee()
+		for _, c := range m.staticCallersOf(h) {
+			if c == via {
+				continue
+			}
+			r.bad(rule, m.declName(c.Parent())+" / other caller of the mark helper", m.instrPos(c), "the helper that advances the delivered-CAS mark is also called here, outside the delivery loop: the persisted checkpoint can exceed what was delivered")
+		}
+	}
 	// the persisted value is that field; resume = field + 1
 	var persisted, resumed bool
 	for _, f := range m.Funcs {
